@@ -30,6 +30,46 @@ func (c *Ctx) Thorough() bool { return c.Tier == "thorough" }
 type propSpec struct {
 	explanation string
 	rules       []ruleFunc
+	// backed: table rules (by obligation rule-name prefix) whose clause this
+	// property's A-comp rules also decide semantically.  When such a rule cannot
+	// recognise the form of the code (verdict undecided) while every A-comp
+	// obligation is discharged, the obligation is kept as unconfirmed instead of
+	// failing the check: a rewrite the table reader does not know is not an alarm
+	// when the behaviour it tabulates has just been decided another way.  A table
+	// rule that does read the code and finds a wrong entry still reports a violation.
+	backed []string
+}
+
+func backedBy(id string, rules ...string) { registry[id].backed = append(registry[id].backed, rules...) }
+
+// soften applies propSpec.backed to a finished report.
+func soften(spec *propSpec, rep *Report) {
+	if len(spec.backed) == 0 {
+		return
+	}
+	ok := 0
+	for _, o := range rep.Obls {
+		if o.Rule == "A-comp" {
+			if o.Verdict != Discharged {
+				return
+			}
+			ok++
+		}
+	}
+	if ok == 0 {
+		return
+	}
+	for _, o := range rep.Obls {
+		if o.Verdict != Undecided {
+			continue
+		}
+		for _, pre := range spec.backed {
+			if strings.HasPrefix(o.Rule, pre) {
+				o.Verdict = Unconfirmed
+				o.Detail += " [form not recognised by the table reader; the clause is decided semantically by this property's A-comp rules, all discharged]"
+			}
+		}
+	}
 }
 
 var registry = map[string]*propSpec{}
@@ -96,6 +136,7 @@ func main() {
 			rule(c)
 		}()
 	}
+	soften(spec, rep)
 	if *dump {
 		for _, o := range rep.Obls {
 			fmt.Printf("OBL %s %s %s @%s :: %s\n", o.Verdict, o.Rule, o.Construct, o.Pos, o.Detail)
@@ -164,6 +205,7 @@ func replay(args []string) int {
 	for _, rule := range spec.rules {
 		rule(c)
 	}
+	soften(spec, rep)
 	for _, n := range rep.Obls {
 		if n.Rule == o.Rule && n.Construct == o.Construct {
 			fmt.Printf("replayed %s: verdict=%s at %s\n  %s\n", n.Key(), n.Verdict, n.Pos, n.Detail)
